@@ -244,3 +244,4 @@ PROPS['C09']['expect_probes'] = PROPS['C09']['expect_probes'] + ['F2_int_cell_re
 PROPS['C19']['expect_probes'] = PROPS['C19']['expect_probes'] + ['F9_unrepresentable_callback_argument']
 PROPS['C10']['expect_probes'] = PROPS['C10']['expect_probes'] + ['memcmp_count_read_from_sandbox_memory', 'F2_count_cell_rewritten_during_memcmp']
 PROPS['C04']['expect_probes'] = PROPS['C04']['expect_probes'] + ['pointer_cell_watched_during_store']
+PROPS['C14']['expect_probes'] = PROPS['C14']['expect_probes'] + ['registry_asked_about_last_byte_of_region', 'backend_reports_total_memory_as_mask']
